@@ -35,4 +35,7 @@ Definition cmd_resp (s:st) (c:cmd) : option N :=
   | KErrCountQ => Some (Z.to_N (qlen s))
   | _ => None
   end.
+(* SCPI_RegSetBits / SCPI_RegClearBits on any register *)
+Definition reg_bits (s:st) (r:reg) (setb:bool) (b:N) : st * list ev :=
+  wr s r (if setb then N.lor (rg s r) b else N.ldiff (rg s r) b).
 Definition run_cmd (s:st) (c:cmd) : st * option N := (fst (cmd_do s c), cmd_resp s c).
